@@ -18,6 +18,7 @@ func (w *World) Serve(q *Req) {
 	q.Events = q.Events[:0]
 	q.Escaped = ""
 	q.AsyncCancelAt = -1
+	q.fsCalls = 0
 	ctx, cancel := gocontext.WithCancel(gocontext.Background())
 	q.rawCancel = cancel
 	q.Local.Ref = q
@@ -29,6 +30,11 @@ func (w *World) Serve(q *Req) {
 	h := http.Header{"X-Req": {q.Name}}
 	for _, kv := range q.Hdr {
 		h.Set(kv[0], kv[1])
+	}
+	if q.ETagOf != nil && q.ETagOf.W != nil && q.ETagOf.W.Sent != nil {
+		if et := q.ETagOf.W.Sent.Get("ETag"); et != "" {
+			h.Set("If-None-Match", et)
+		}
 	}
 	u := &url.URL{Path: q.Path, RawQuery: q.Query}
 	req := (&http.Request{Method: q.Method, URL: u, Header: h, Proto: "HTTP/1.1", ProtoMajor: 1, ProtoMinor: 1,
@@ -151,4 +157,4 @@ func (q *Req) DescribeProgs() []string {
 
 // OpNames for reports.
 var OpNames = []string{"yield", "writeHeader", "write", "flush", "next", "nextSwallow", "cancel", "mapExtra", "seeExtra", "panic", "echo",
-	"mark", "checkMark", "setHeader", "before", "render", "redirect", "status", "cookie", "seeSvc"}
+	"mark", "checkMark", "setHeader", "before", "render", "redirect", "status", "cookie", "seeSvc", "seeHeaders"}
